@@ -121,7 +121,7 @@ inductive Res (α : Type) where
   | ok (a : α)
   | reject (t : Tag)
   | panic (s : Site)
-deriving Repr
+deriving DecidableEq, Repr
 
 def Res.bind {α β : Type} : Res α → (α → Res β) → Res β
   | .ok a, f => f a
@@ -211,16 +211,19 @@ def addrLoop (fx : Bool) (sIdx sSum : Site) (tAddr : Tag) : List Out → List Ou
       let a ← caddF fx sSum .sumOverflow acc r.val
       addrLoop fx sIdx sSum tAddr rs cs a
 
+/-- the current tree compares the proposed missed sum with the current VALID sum
+(`oldPayout`); the repaired variant sums the current missed outputs -/
+def oldMissedSum (fx : Bool) (cur : Rev) (oldPayout : Nat) : Res Nat :=
+  if fx then sumVals fx .stdOldSum cur.missed 0 else .ok oldPayout
+
 /-- rhp/contracts.go:21 `validateStdRevision` -/
 def validateStd (fx : Bool) (cur rev : Rev) : Res Unit := do
-  -- repaired variant only: shape checks before anything is indexed
-  if fx then do
-    check .curShape (decide (cur.valid.length < 2) || decide (cur.missed.length < 2))
-    check .validCount (decide (rev.valid.length ≠ cur.valid.length))
-    check .missedCount (decide (rev.missed.length ≠ cur.missed.length))
+  -- repaired variant only (`fx && …`): shape checks before anything is indexed
+  check .curShape (fx && (decide (cur.valid.length < 2) || decide (cur.missed.length < 2)))
+  check .validCount (fx && decide (rev.valid.length ≠ cur.valid.length))
+  check .missedCount (fx && decide (rev.missed.length ≠ cur.missed.length))
   let oldPayout ← sumVals fx .stdOldSum cur.valid 0
-  -- the current tree compares the proposed missed sum with the current VALID sum
-  let oldMissed ← if fx then sumVals fx .stdOldSum cur.missed 0 else pure oldPayout
+  let oldMissed ← oldMissedSum fx cur oldPayout
   let validPayout ← addrLoop fx .stdCurValidIndex .stdValidSum .validAddr rev.valid cur.valid 0
   let missedPayout ← addrLoop fx .stdCurMissedIndex .stdMissedSum .missedAddr rev.missed cur.missed 0
   check .validSum (decide (validPayout ≠ oldPayout))
@@ -264,7 +267,7 @@ def validateRevision (fx : Bool) (cur rev : Rev) (payment collateral : Nat) : Re
 /-- rhp/contracts.go:247 `ValidateProgramRevision`; returns the host burn -/
 def validateProgram (fx : Bool) (cur rev : Rev) (storage collateral : Nat) : Res Nat := do
   validateStd fx cur rev
-  if fx then check .curShape (decide (cur.missed.length < 3))
+  check .curShape (fx && decide (cur.missed.length < 3))
   let cmh ← out1 .progCurMissedHost cur.missed
   let rmh ← out1 .progRevMissedHost rev.missed
   check .hostMissedUnderflow (decide (cmh.val < rmh.val))
@@ -319,9 +322,8 @@ def clearLoop : List Out → List Out → List Out → Res Unit
 
 /-- rhp/contracts.go:148 `ValidateClearingRevision`; returns the amount transferred to the host -/
 def validateClearing (fx : Bool) (cur fin : Rev) (finalPayment : Nat) : Res Nat := do
-  if fx then do
-    check .curShape (decide (cur.valid.length ≠ 2))
-    check .locked (decide (cur.revNo = maxRev))
+  check .curShape (fx && decide (cur.valid.length ≠ 2))
+  check .locked (fx && decide (cur.revNo = maxRev))
   check .filesize (decide (fin.filesize ≠ 0))
   check .root (decide (fin.root ≠ 0))
   check .wStart (decide (cur.wStart ≠ fin.wStart))
@@ -521,7 +523,10 @@ implementation's verdicts, the theorems of Props/C07, Props/C12 are about them) 
 
 def vals (l : List Out) : List Nat := l.map (·.val)
 def addrs (l : List Out) : List Nat := l.map (·.addr)
-def total (l : List Out) : Nat := (vals l).sum
+/-- mathematical (unbounded) sum of the output values -/
+def total : List Out → Nat
+  | [] => 0
+  | o :: l => o.val + total l
 
 def renterVal : List Out → Option Nat
   | o :: _ => some o.val | [] => none
